@@ -7,7 +7,7 @@ rsync -a --exclude .git /repo/ $d/
 if ! (cd $d && patch -p1 -s < "$patch"); then echo "PATCH DOES NOT APPLY: $patch"; rm -rf $d; exit 3; fi
 rc=0
 for p in "$@"; do
-  /verif/bin/rtcheck -property $p -tier quick -repo $d -no-evidence > $d/.out 2>&1; r=$?
+  ${RTCHECK:-/verif/bin/rtcheck} -property $p -tier quick -repo $d -verif /verif -no-evidence > $d/.out 2>&1; r=$?
   if [ $r -eq 1 ]; then echo "  $p: DETECTED"; grep -A2 '  FAILED' $d/.out | grep -v '^--' | head -${LINES_MAX:-9}; 
   elif [ $r -eq 0 ]; then echo "  $p: missed"; rc=1;
   elif grep -q "^UNDECIDED property=" $d/.out; then echo "  $p: undecided"; grep -A2 '  UNRECOGNISED' $d/.out | grep -v '^--' | head -6; rc=1;
